@@ -279,6 +279,15 @@ class Routes:
                     self.cmp("FixedArray.ChangingIndex((None,v), keep unit)[i]", t4.values[i], [db.Convert(qt, v, u, rr[i])], case, av, au, [rr[i]])
                     self.cmp("FixedArray.ChangingIndex((None,v), keep unit)", list(t4.values)[:i], [float(t) for t in vals[:i]], case, None, None, vals[:i])
                     self.meta("FixedArray.ChangingIndex((None,v), keep unit)", t4, c, qt, u, case)
+                    # positions counted from the end, as everywhere in Python: the last element, re-expressed like the first
+                    n_ = len(vals)
+                    t6 = fa.ChangingIndex(-1, Scalar(c, 5.0, v))
+                    self.cmp("FixedArray.ChangingIndex(-1, scalar)", list(t6.values), list(rr[:-1]) + [5.0], case, au, av, list(vals[:-1]) + [vals[-1]])
+                    t7 = fa.ChangingIndex(-n_, (5.0, v), use_value_unit=False)
+                    self.cmp("FixedArray.ChangingIndex(-n, (x,v), keep unit)", list(t7.values), [back5] + [float(t) for t in vals[1:]], case, av, au, [5.0] + list(vals[1:]))
+                    t8 = fa.ChangingIndex(-1, 7.0)
+                    self.cmp("FixedArray.ChangingIndex(-1, x)", list(t8.values), [float(t) for t in vals[:-1]] + [7.0], case, None, None, list(vals[:-1]) + [7.0])
+                    self.cmp("FixedArray.IndexAsScalar(-1, quantity)", fa.IndexAsScalar(-1, ObtainQuantity(v, c)).value, [rr[-1]], case, au, av, [vals[-1]])
                     t5 = fa.ChangingIndex(0, 5.0)  # a plain amount is an amount in the array's own unit
                     self.cmp("FixedArray.ChangingIndex(x)", list(t5.values), [5.0] + [float(t) for t in vals[1:]], case, None, None, [5.0] + vals[1:])
                     self.meta("FixedArray.ChangingIndex(x)", t5, c, qt, u, case)
